@@ -250,6 +250,74 @@ def http_impl(kind, pieces, headreq=False, close=False, maxline=None, maxhdrs=No
     return flat, view
 
 
+def _flat_of(kind, p, left, current=False):
+    """flatten the fields of parser p (same layout as http_obs / cur_obs)"""
+    if p.ended and p.errored:
+        site = CLS2ERR.get(Spy.last) or classify_error(p.error) or ("?" + str(Spy.last))
+        return [100 + ERR.get(site, 0)] + enc_b(left)
+    done, hd = bool(p.ended), bool(p.headed)
+    if current and not hd:
+        return [0] + enc_b(left)
+    flat = [2 if done else 1 if hd else 0]
+    if hd:
+        if kind == "req":
+            start, status = [l1(p.method), l1(p.url)], -1
+        else:
+            start, status = [l1(p.reason)], p.status
+        version = {(1, 0): 0, (1, 1): 1}.get(p.version, -1)
+        hdrs = [(l1(k), l1(v)) for k, v in p.headers.items()]
+        flat += (enc_list(enc_b, start) + [version, status] +
+                 enc_list(lambda kv: enc_b(kv[0]) + enc_b(kv[1]), hdrs) + [1 if p.chunked else 0] +
+                 enc_oz(p.length) + [1 if p.persisted else 0])
+    parms = [(bytes(k), None if v is None else bytes(v)) for k, v in (p.parms or {}).items()]
+    trails = [(l1(k), l1(v)) for k, v in (p.trails or {}).items()]
+    flat += (enc_b(bytes(p.body)) + enc_list(lambda kv: enc_b(kv[0]) + enc_ob(kv[1]), parms) +
+             enc_list(lambda kv: enc_b(kv[0]) + enc_b(kv[1]), trails) + enc_b(left))
+    return flat
+
+
+def sess_impl(kind, pieces, headreq=False):
+    """ONE Requestant / Respondent over a stream of messages: after every complete message
+    makeParser() is called on the same object (what Valet.serviceReps / Patron.serviceResponse do)
+    and parsing goes on with the bytes left in the buffer.
+    returns (flat observation as sess_obs2, [per message readable dict], leftover)"""
+    _install_spies()
+    msg = bytearray()
+    if kind == "req":
+        p = serving.Requestant(msg=msg, incomer=Ix())
+    else:
+        p = clienting.Respondent(msg=msg, method="HEAD" if headreq else "GET")
+    done_flats, views = [], []
+    failed = False
+    Spy.last = None
+    try:
+        for piece in pieces:
+            msg.extend(piece)
+            while not failed:
+                p.parse()
+                if not p.ended:
+                    break
+                if p.errored:
+                    failed = True
+                    break
+                done_flats.append(_flat_of(kind, p, b""))
+                views.append({"start": [p.method, p.url] if kind == "req" else [p.status, p.reason],
+                              "headers": [(k, v) for k, v in p.headers.items()],
+                              "body": bytes(p.body).decode("latin-1"), "length": p.length,
+                              "parms": [(bytes(k).decode("latin-1"), None if v is None else bytes(v).decode("latin-1"))
+                                        for k, v in (p.parms or {}).items()],
+                              "trails": [(k, v) for k, v in (p.trails or {}).items()]})
+                p.makeParser()
+                Spy.last = None
+    except Exception as ex:
+        return [200], [{"escaped": type(ex).__name__, "text": str(ex)[:200]}], bytes(msg)
+    flat = [len(done_flats)]
+    for f in done_flats:
+        flat += f
+    flat += _flat_of(kind, p, bytes(msg), current=True)
+    return flat, views, bytes(msg)
+
+
 def bad_urls(data):
     """tokens of the message on which urlsplit()/.port raise ValueError (python's urllib, not ioflo)"""
     bad = []
